@@ -99,7 +99,7 @@ def validate(res, scratch, tp, byid):
             sc = byid.get(sid, {})
             res.report({"property": "C02", "engine": sid, "why": v["why"], "event": v["ev"], "mode": sc.get("mode"),
                         "transport": sc.get("transport"), "async": sc.get("async"), "exec": sc.get("exec"), "leg": sc.get("leg", "real"),
-                        "pending": bool(sc.get("pending")),
+                        "pending": bool(sc.get("pending")), "backlog": bool(sc.get("backlog")),
                         "script": sc, "trace": events[max(i, v["line"] - 12):v["line"]],
                         "replay_key": {"id": sid if not sc.get("steps") else None, "why": v["why"],
                                        "steps": [(x.get("t"), x.get("env"), x.get("m")) for x in sc.get("steps", [])]}})
@@ -128,6 +128,14 @@ def matrix(tier, seed):
         out.append({"id": "%s-sync-default-tcp-pending-close" % mode, "mode": mode, "async": False, "exec": "default", "npoller": 1,
                     "rbuf": 1024, "maxread": 1, "transport": "tcp", "seed": rnd.randrange(1 << 40), "conns": 2, "idle_ms": 100,
                     "slow": True, "pending": True})
+    # the server first writes a block the socket does not take at once: the poller handles pure writing events (flushes ending
+    # on EAGAIN, one-shot re-arms) while the peer is silent; what the peer sends afterwards must still be delivered
+    for mode in ("LT", "ET", "OS"):
+        for asyncr in (False, True):
+            for transport in ("tcp", "unix"):
+                out.append({"id": "%s-%s-default-%s-backlog" % (mode, "async" if asyncr else "sync", transport), "mode": mode, "async": asyncr,
+                            "exec": "default", "npoller": 1, "rbuf": 4096, "maxread": 3, "transport": transport,
+                            "seed": rnd.randrange(1 << 40), "conns": 2, "idle_ms": 100, "slow": False, "backlog": True})
     return out
 
 
